@@ -4,21 +4,15 @@ use crate::util::json::Json;
 use crate::util::rng::Rng;
 use crate::util::run::*;
 
-fn run_peer(prop: &'static str, focus: u8, idx: u64, rng: &mut Rng, ctx: &Ctx) -> CaseOut {
-    let mut out = CaseOut::default();
-    let cfg = random_cfg(rng, focus);
-    let tag = rng.next_u64();
-    let mut sim = PeerSim::new(cfg.clone(), tag);
-    sim.verbose = ctx.verbose;
-    sim.run(rng);
+fn harvest(prop: &'static str, cfg: &PeerCfg, sim: &mut PeerSim, out: &mut CaseOut, verbose: bool) {
     let st = sim.stats.clone();
-    if ctx.verbose {
+    if verbose {
         println!("stats: {:?}", st);
         println!("sender: {:?}", sim.smon.stats);
     }
     match prop {
         "C04" => {
-            out.evals = st.segs_injected + st.acks_checked + st.reads;
+            out.evals += st.segs_injected + st.acks_checked + st.reads;
             for c in &st.seg_class {
                 // placement x flag class x buffer class
                 let mut it = c.split('|');
@@ -27,7 +21,7 @@ fn run_peer(prop: &'static str, focus: u8, idx: u64, rng: &mut Rng, ctx: &Ctx) -
             }
         }
         "C17" => {
-            out.evals = st.state_checks;
+            out.evals += st.state_checks;
             for t in &st.transitions {
                 out.class(format!("edge:{}", t));
             }
@@ -36,11 +30,10 @@ fn run_peer(prop: &'static str, focus: u8, idx: u64, rng: &mut Rng, ctx: &Ctx) -
             }
         }
         _ => {
-            out.evals = sim.smon.stats.data_segments + sim.smon.stats.syns + sim.smon.stats.fins;
+            out.evals += sim.smon.stats.data_segments + sim.smon.stats.syns + sim.smon.stats.fins;
             out.class(format!("mss:{:?}|ws:{:?}|ts:{}", cfg.peer_mss, cfg.peer_ws, cfg.peer_ts));
         }
     }
-    out.count("runs", 1);
     out.count("segments_injected", st.segs_injected);
     out.count("acks_checked", st.acks_checked);
     out.count("reads", st.reads);
@@ -56,13 +49,50 @@ fn run_peer(prop: &'static str, focus: u8, idx: u64, rng: &mut Rng, ctx: &Ctx) -
     out.count("c05_zero_window_probes", sim.smon.stats.probes);
     out.count("c05_window_edge_moved_left", sim.smon.stats.edge_shrank);
     out.count("c05_bytes_content_checked", sim.smon.stats.bytes_checked);
-    for t in sim.violations {
+    for t in std::mem::take(&mut sim.violations) {
         if t.prop == prop {
             out.violate(t.v);
         }
     }
+}
+
+fn run_peer(prop: &'static str, focus: u8, idx: u64, rng: &mut Rng, ctx: &Ctx) -> CaseOut {
+    let mut out = CaseOut::default();
+    let cfg = random_cfg(rng, focus);
+    let tag = rng.next_u64();
+    let mut sim = PeerSim::new(cfg.clone(), tag);
+    sim.verbose = ctx.verbose;
+    sim.run(rng);
+    harvest(prop, &cfg, &mut sim, &mut out, ctx.verbose);
+    out.count("runs", 1);
     if idx == 0 {
         out.sample = Some(Json::obj().set("config", Json::s(format!("{:?}", cfg))).set("history_tail", Json::Arr(sim.log.iter().take(30).map(|s| Json::s(s.clone())).collect())));
+    }
+    // socket reuse: up to two more connections on the same socket, each with another peer
+    // configuration (MSS / window scale / timestamps announced or not, other role)
+    let mut n = 0;
+    while n < 2 && out.violations.is_empty() && rng.chance(1, 3) {
+        n += 1;
+        let cfg2 = random_cfg(rng, focus);
+        let tag2 = rng.next_u64();
+        let expire = rng.bool();
+        match sim.reuse(cfg2, tag2, expire) {
+            Some(mut s2) => {
+                s2.verbose = ctx.verbose;
+                if ctx.verbose {
+                    println!("---- the socket is reused for another connection: {:?}", s2.cfg);
+                }
+                s2.run(rng);
+                let c2 = s2.cfg.clone();
+                harvest(prop, &c2, &mut s2, &mut out, ctx.verbose);
+                out.count("connections_on_a_reused_socket", 1);
+                sim = s2;
+            }
+            None => {
+                out.count("reuse_not_possible", 1);
+                break;
+            }
+        }
     }
     out
 }
@@ -84,6 +114,7 @@ pub fn monitor_c04() -> super::Monitor {
         assumptions: &[
             "window the socket 'advertised' = the highest right edge (ACK + window << negotiated shift) it ever put on the wire (weakest sound reading)",
             "a FIN whose sequence number equals the right edge is tolerated",
+            "in a third of the cases the same socket serves one or two further connections (socket reuse) with a fresh model",
         ],
         floors: &[("runs", 500), ("segments_injected", 50_000), ("acks_checked", 20_000), ("runs_with_finished", 20), ("distinct", 60)],
         parts: vec![super::Part { name: "peer", cases: |c| c.n(20_000, 400_000), f: c04_case }],
@@ -95,7 +126,7 @@ pub fn monitor_c17() -> super::Monitor {
     super::Monitor {
         id: "C17",
         rule: "one event at a time (one injected segment via poll_ingress_single, one poll_egress with a time advance, or one API call), state() read before and after; the monitor classifies the event from its own bookkeeping (socket ISS from its SYN, its FIN position from the bytes written before close, the peer's in-order position from the receiver model, the window from emitted segments) and permits only the RFC 9293 edges: ESTABLISHED only on ack==ISS+1, CLOSE-WAIT/CLOSING/TIME-WAIT entry only on an in-order in-window FIN, FIN-WAIT-2 / LAST-ACK->CLOSED / CLOSING->TIME-WAIT only on ack==own FIN+1, reset only by an RST inside [last ACK emitted, advertised edge) (or the exactly expected RST|ACK in SYN-SENT), TIME-WAIT leaves only by its 10 s timer and does leave. A class is a distinct observed (state,event,next state) edge or (state, placement, ack class).",
-        assumptions: &["an unchanged state is always permitted; only changes are judged", "a listener that returns to LISTEN ends the run (second incarnation not modelled)"],
+        assumptions: &["an unchanged state is always permitted; only changes are judged", "a listener that returns to LISTEN ends the connection's run; in a third of the cases the same socket then serves one or two further connections (socket reuse after abort or after TIME-WAIT expiry) with a fresh model and another peer configuration"],
         floors: &[("runs", 500), ("state_checks", 100_000), ("forbidden_edge_attempts", 10_000), ("rsts_outside_window", 500), ("distinct", 150)],
         parts: vec![super::Part { name: "peer", cases: |c| c.n(20_000, 400_000), f: c17_case }],
         post: None,
